@@ -151,6 +151,21 @@ func TestC03_Accrual(t *testing.T) {
 		t0 := rapid.Uint64Range(0, 1<<34).Draw(t, "t0")
 		d1 := rapid.OneOf(rapid.Uint64Range(0, 1<<34), rapid.Uint64Range(0, 1<<62)).Draw(t, "d1")
 		d2 := rapid.OneOf(rapid.Uint64Range(0, 1<<34), rapid.Uint64Range(0, 1<<62)).Draw(t, "d2")
+		if rapid.IntRange(0, 2).Draw(t, "aimed") == 0 {
+			// aimed at the region where whole-coin seconds and droplet seconds each fit 64 bits but their sum is
+			// around 2^64: whole coins ~ 2^64/dt with a non-zero droplet remainder
+			d1 = rapid.Uint64Range(1, 1<<44).Draw(t, "adt")
+			w := ^uint64(0)/d1 + rapid.Uint64Range(0, 2).Draw(t, "wu") - rapid.Uint64Range(0, 2).Draw(t, "wd")
+			if w > ^uint64(0)/1000000-1 {
+				w = ^uint64(0)/1000000 - 1
+			}
+			coins = w*1000000 + rapid.OneOf(rapid.Just(uint64(999999)), rapid.Uint64Range(1, 999999)).Draw(t, "frac")
+			hours = rapid.OneOf(rapid.Just(uint64(0)), rapid.Uint64Range(0, 1e12)).Draw(t, "ahours")
+			d2 = rapid.Uint64Range(0, 3).Draw(t, "ad2")
+			if rapid.Bool().Draw(t, "stepback") && d1 > 3 {
+				d1 -= 3 // t1 just before the wrap, t2 at or after it
+			}
+		}
 		ux := coin.UxOut{Head: coin.UxHead{Time: t0}, Body: coin.UxBody{Coins: coins, Hours: hours}}
 		t1 := t0 + d1
 		t2 := t1 + d2
